@@ -79,18 +79,20 @@ pub fn newtype_domain() -> Vec<String> {
 '''
 
 
-def enum_case(cid, names, maxlen, enum_name="En"):
+def enum_case(cid, names, maxlen, enum_name="En", vattrs=None):
+    """vattrs: per variant, attributes that are none of FromStr's business (the variant takes part all the same)."""
     plain = [n[2:] if n.startswith("r#") else n for n in names]
+    decorated = ["%s %s" % (vattrs[i % len(vattrs)], n) if vattrs and vattrs[i % len(vattrs)] else n for i, n in enumerate(names)]
     arms = ", ".join("%s::%s => %d" % (enum_name, n, i) for i, n in enumerate(names))
     mod = """use super::*;
 #[derive(derive_more::FromStr)]
 pub enum %(E)s { %(vars)s }
-fn idx(e: &%(E)s) -> usize { match e { %(arms)s } }
+#[allow(deprecated)] fn idx(e: &%(E)s) -> usize { match e { %(arms)s } }
 pub fn run(r: &mut R) {
     probe_enum::<%(E)s>(r, &[%(names)s], "%(Eplain)s", %(maxlen)d, idx);
 }""" % {"E": enum_name, "Eplain": enum_name[2:] if enum_name.startswith("r#") else enum_name,
-        "vars": ", ".join(names), "arms": arms, "names": ", ".join('"%s"' % p for p in plain), "maxlen": maxlen}
-    return Case(cid, mod, meta={"kind": "enum", "names": names, "src": "#[derive(FromStr)] enum %s { %s }" % (enum_name, ", ".join(names))})
+        "vars": ", ".join(decorated), "arms": arms, "names": ", ".join('"%s"' % p for p in plain), "maxlen": maxlen}
+    return Case(cid, mod, meta={"kind": "enum", "names": names, "src": "#[derive(FromStr)] enum %s { %s }" % (enum_name, ", ".join(decorated))})
 
 
 NEWTYPES = [("i32", "i32", "|x| x"), ("u8", "u8", "|x| x"), ("i8", "i8", "|x| x"), ("bool", "bool", "|x| x"), ("char", "char", "|x| x"),
@@ -148,6 +150,10 @@ def run(chk, tier):
     # non-ASCII identifiers: "ignoring case" is not an ASCII-only notion
     for sub in (["Ärger", "Foo"], ["über", "ÜBER", "Bar"], ["Élan", "élan", "ÉLAN"], ["Ωmega"], ["Ärger", "über", "Élan", "Foo", "foo"]):
         cases.append(enum_case("e%d" % len(cases), list(sub), 2 if len(sub) > 3 else 3))
+    # variants carrying attributes of other tools: hidden from the docs, lint levels, always-true cfg, another derive's helper
+    for va in (["#[doc(hidden)]", ""], ["", "#[doc(hidden)]"], ["#[allow(dead_code)]", "#[doc(hidden)] #[allow(unused)]"], ["#[cfg(all())]", "#[doc = \"d\"]"], ["#[deprecated]", ""]):
+        for sub in (["Foo", "FOO", "Bar"], ["Baz", "BaZ"], ["A"]):
+            cases.append(enum_case("e%d" % len(cases), list(sub), maxlen, vattrs=va))
     ne = len(cases)
     chk.part("enums", name_pool=NAMES, subset_sizes=list(sizes), programs=ne,
              strings="all strings of length <= %d over the names' letters in both cases + '_',' ','#','r','R'; all case patterns, prefixes, 1-char extensions, r#-prefixed and whitespace-padded forms of every name; 8 non-ASCII probes" % maxlen)
